@@ -62,7 +62,7 @@ class Program(object):
             elif kind == 'workflow':
                 L.append('      workflow: %s' % d['workflow'])
             if d.get('with_items') is not None:
-                L.append('      with-items: it in <% list(range(0, %d)) %>' % d['with_items'])
+                L.append('      with-items: it in <%% list(range(0, %d)) %%>' % d['with_items'])
                 if d.get('concurrency') is not None:
                     L.append('      concurrency: %s' % d['concurrency'])
             if d.get('join'):
@@ -97,16 +97,27 @@ class Program(object):
     # -- abstract definition for TLA+ -------------------------------------------------------------
     def abstract(self):
         tasks = {}
-        for t in self.order:
-            d = self.tasks[t]
-            ed = lambda key: [{'to': e['to'], 'fires': bool(e.get('fires', True))} for e in (d.get(key) or [])]
-            tasks[t] = dict(kind=d.get('kind', 'action'), join=d.get('join', 0), succ=ed('succ'), err=ed('err'), comp=ed('comp'),
-                            requires=list(d.get('requires') or []), outcome=list(self.oracle.get(d.get('tag', t), ['ok'])),
-                            items=(d['with_items'] if d.get('with_items') is not None else -1),
-                            conc=(d['concurrency'] if d.get('concurrency') is not None else 0),
-                            retry=((d.get('retry') or {}).get('count', 0)))
-        inbound = {t: sorted(set(s for s in self.order for key in ('succ', 'err', 'comp')
-                                 for e in (self.tasks[s].get(key) or []) if e['to'] == t)) for t in self.order}
+        inbound = {}
+        order = []
+        for P in [self] + [v for k, v in sorted(self.subs.items())]:
+            for t in P.order:
+                d = P.tasks[t]
+                ed = lambda key: [{'to': e['to'], 'fires': bool(e.get('fires', True))} for e in (d.get(key) or [])]
+                oc = self.oracle.get(d.get('tag', t), ['ok'])
+                if isinstance(oc, dict):
+                    n = d.get('with_items') or 0
+                    oc = [list(oc.get(i, oc.get('*', ['ok']))) for i in range(n)]
+                    flat = False
+                else:
+                    oc = [list(oc)]
+                tasks[t] = dict(kind=d.get('kind', 'action'), join=d.get('join', 0), succ=ed('succ'), err=ed('err'), comp=ed('comp'),
+                                requires=list(d.get('requires') or []), outcome=oc, wf=P.name, sub=d.get('workflow', ''),
+                                items=(d['with_items'] if d.get('with_items') is not None else -1),
+                                conc=(d['concurrency'] if d.get('concurrency') is not None else 0),
+                                retry=((d.get('retry') or {}).get('count', 0)))
+                inbound[t] = sorted(set(s for s in P.order for key in ('succ', 'err', 'comp')
+                                        for e in (P.tasks[s].get(key) or []) if e['to'] == t))
+                order.append(t)
         closure = []
         if self.type == 'reverse' and self.target:
             todo = [self.target]
@@ -115,14 +126,14 @@ class Program(object):
                 if x not in closure:
                     closure.append(x)
                     todo += list(self.tasks[x].get('requires') or [])
-        return dict(name=self.name, type=self.type, order=list(self.order), tasks=tasks, inbound=inbound,
+        return dict(name=self.name, type=self.type, order=order, tasks=tasks, inbound=inbound,
                     target=self.target or '', closure=sorted(closure), flags=dict(self.flags, _=0))
 
 
 CMDS = ['fail', 'succeed', 'noop']
 
 
-def gen_direct(rnd, n=None, p_join=0.9, p_err=0.3, p_guard=0.3, p_cmd=0.15, p_comp=0.2, allow_cmd=True, max_out=2):
+def gen_direct(rnd, n=None, p_sub=0.0, p_items=0.0, p_retry=0.0, p_join=0.9, p_join1=0.2, p_err=0.3, p_guard=0.3, p_cmd=0.15, p_comp=0.2, allow_cmd=True, max_out=2):
     """Random direct DAG: edges go forward in the task order; a task with >= 2 inbound edges is a
     join (all / one / N) with probability p_join (otherwise it runs once per trigger)."""
     P = Program()
@@ -170,8 +181,42 @@ def gen_direct(rnd, n=None, p_join=0.9, p_err=0.3, p_guard=0.3, p_cmd=0.15, p_co
                     P.flags['partial_join'] = True
             else:
                 multi = True
+        elif len(inbound[t]) == 1 and rnd.random() < p_join1:
+            P.tasks[t]['join'] = -1          # a join with a single inbound branch is legal, and nests
     P.flags['multi_trigger'] = multi
     P.flags['cmd'] = racy_cmd
+    nsub = 0
+    for t in names:
+        d = P.tasks[t]
+        r = rnd.random()
+        if r < p_sub:
+            nsub += 1
+            sn = 'sub%d' % nsub
+            S = Program()
+            S.name = sn
+            k = rnd.randint(1, 2)
+            S.order = ['%sx%d' % (sn, i) for i in range(k)]
+            for i, st in enumerate(S.order):
+                S.tasks[st] = {'kind': 'action', 'succ': ([{'to': S.order[i + 1]}] if i + 1 < k else []), 'err': [], 'comp': []}
+                P.oracle[st] = [rnd.choices(['ok', 'err'], [0.75, 0.25])[0]]
+            P.subs[sn] = S
+            d['kind'] = 'workflow'
+            d['workflow'] = sn
+            P.flags['sub'] = True
+            if rnd.random() < p_items:
+                d['with_items'] = rnd.randint(0, 3)
+        elif r < p_sub + p_items:
+            n_it = rnd.randint(0, 4)
+            d['with_items'] = n_it
+            if rnd.random() < 0.6:
+                d['concurrency'] = rnd.randint(1, max(1, n_it + 1))
+            P.oracle[t] = {i: [rnd.choices(['ok', 'err'], [0.8, 0.2])[0]] for i in range(n_it)}
+            P.flags['items'] = True
+        elif r < p_sub + p_items + p_retry:
+            c = rnd.randint(1, 2)
+            d['retry'] = {'count': c, 'delay': rnd.choice([0, 1])}
+            P.oracle[t] = [rnd.choice(['ok', 'err']) for _ in range(c + 1)]
+            P.flags['retry'] = True
     return P
 
 
@@ -229,4 +274,15 @@ def catalogue():
     P.tasks = {'s': {'succ': [{'to': 'x', 'fires': False, 'expr': '<% $.gf %>'}, {'to': 'inner'}]}, 'f': {'succ': [{'to': 'outer'}]},
                'x': {'succ': [{'to': 'inner'}]}, 'inner': {'join': -1, 'succ': [{'to': 'outer'}]}, 'outer': {'join': -1}}
     out.append(('nested_join_dead_guard', P))
+    # outer join waits for an inner join that is never created (its only feeder fails / does not route)
+    for nm, oc, guard in (('nested_join_inner_uncreated_err', 'err', None), ('nested_join_inner_uncreated_guard', 'ok', False)):
+        P = Program()
+        P.order = ['slow', 'inner', 'fast', 'outer']
+        e = {'to': 'inner'}
+        if guard is False:
+            e.update(fires=False, expr='<% 1 = 2 %>')
+        P.tasks = {'slow': {'succ': [e]}, 'inner': {'join': -1, 'succ': [{'to': 'outer'}]},
+                   'fast': {'succ': [{'to': 'outer'}]}, 'outer': {'join': -1}}
+        P.oracle = {'slow': [oc]}
+        out.append((nm, P))
     return out
